@@ -64,7 +64,13 @@ func New(t *testing.T, nVal int) *W {
 	if os.Getenv("VERIF_DET") != "" {
 		return NewDet(t, nVal) // fixed key material and genesis: executions comparable across processes
 	}
-	cfgOnce.Do(func() { fxtypes.SetConfig(true) })
+	cfgOnce.Do(func() {
+		// VERIF_ADDR_CFG=sdk (opt-in, used by harness/authority only): leave the SDK's default address configuration
+		// (no 20-byte address verifier), as the repository's own keeper tests run
+		if os.Getenv("VERIF_ADDR_CFG") != "sdk" {
+			fxtypes.SetConfig(true)
+		}
+	})
 	w := &W{keys: map[string]*helpers.Signer{}}
 	w.MintValNumber = nVal
 	w.SetT(t)
